@@ -42,7 +42,8 @@ theorem floor_divide_i32_correct (x y : Int) (hy : y ≠ 0) :
     recipe_floor_divide_i32.eval .ideal [.i x, .i y] = .i (Jax.floorDivide x y) := by
   simp only [recipe_floor_divide_i32]; recipe_simp
   have hm : x - x.tdiv y * y = x.tmod y := by rw [Int.tmod_def, Int.mul_comm]
-  simp only [Jax.floorDivide, fdiv_eq_tdiv_adjust x y hy, hm]
+  have hm' : x - y * x.tdiv y = x.tmod y := by rw [Int.tmod_def]
+  simp only [Jax.floorDivide, fdiv_eq_tdiv_adjust x y hy, hm, hm']
   by_cases h0 : x.tmod y = 0 <;> by_cases h1 : x.tmod y < 0 <;> by_cases h2 : y < 0 <;>
     simp [h0, h1, h2] <;> omega
 
@@ -52,7 +53,8 @@ theorem mod_i32_correct (x y : Int) (hy : y ≠ 0) :
   have hy' : (y == 0) = false := by simpa using hy
   simp only [hy', Bool.false_eq_true, if_false]
   have hm : x - x.tdiv y * y = x.tmod y := by rw [Int.tmod_def, Int.mul_comm]
-  simp only [Jax.pyMod, fmod_eq_tmod_adjust x y hy, hm]
+  have hm' : x - y * x.tdiv y = x.tmod y := by rw [Int.tmod_def]
+  simp only [Jax.pyMod, fmod_eq_tmod_adjust x y hy, hm, hm']
   by_cases h0 : x.tmod y = 0 <;> by_cases h1 : x.tmod y < 0 <;> by_cases h2 : y < 0 <;>
     simp [h0, h1, h2] <;> omega
 
